@@ -26,6 +26,14 @@ CHECKS = {
    text="seeded histories of registry operations (register / look-up / memo drop / new Glommer) over per-run class families on default, Glommer and bare registries, with the iteration order of register_op's set of types owned by the simulator; observed handler must belong to a minimal eligible registered type of a reference registry model; each history re-run in 3 variants (registration order, set order, no intermediate look-ups + memo dropped) whose final look-up batteries must agree; fresh default Glommer vs cold module-level glom on a fixed battery.",
    note="trusts: models/registry.py as the reading of 'nearest registered type' (unrelated minimal candidates unranked, only stable); handler identity observed through TargetRegistry.get_handler and confirmed end-to-end for tagged handlers",
    technique="deterministic simulation of registration/look-up histories with a controlled set-iteration-order seam, reference-model oracle + variant stability"),
+ "C15": dict(level="exploration", engine="streamsim+schedsim", design="4/C15",
+   text="seeded histories over one reduction spec object (Fold/Sum/Flatten eager+lazy/Merge/flatten(levels)/merge()): sequential re-use, 2-3 evaluations in flight switching at source __iter__/__next__ points, source fault at item j then healthy evaluations, lazy results abandoned, non-iterable targets; every evaluation compared with reduce/sum/chain.from_iterable/dict.update, init() probes counted per evaluation, identity walk for shared accumulators, input snapshots.",
+   note="trusts: functools/itertools/dict.update as reference; workload op callables are pure",
+   technique="deterministic simulation: re-use histories + seeded interleaving at the source iterator + source faults, reference-reduction oracle"),
+ "C16": dict(level="exploration", engine="streamsim+schedsim", design="4/C16",
+   text="seeded Group spec trees (1-3 key levels, list leaves and First/Max/Min/Avg/Sum/Count/Flatten/Merge, top-level Limit) evaluated in histories: re-use, interleaving at the item source, re-entrant nesting of the same Group object from a key function, aborted evaluations; every evaluation compared with an incremental bucketing loop. One recorded finding (First() under a key level) is recognised by a transliteration of the pinned STOP protocol and reported as KNOWN-FINDING; any other mismatch is a VIOLATION.",
+   note="trusts: the explicit bucketing loop (first-occurrence key order, encounter value order, SKIP drops); Sample() excluded",
+   technique="deterministic simulation: re-use / nesting histories + seeded interleaving + source faults, reference-loop oracle"),
  "C17": dict(level="exploration", engine="streamsim", design="4/C17",
    text="seeded Iter/Invoke builder chains over counted, fault-injectable sources (finite and infinite): every-prefix consumers, two live iterators pulled alternately, builder histories, source fault at item j, abandoned consumers; outputs equal the itertools/boltons composition, pulls bounded by the reference pulls + window slack, step budget on infinite sources, base specs unchanged.",
    note="trusts: itertools and boltons iterutils as the definition of the stages; stage callbacks total and SKIP/STOP-free",
